@@ -221,6 +221,29 @@ func C07WorkerMain(args []string) {
 				st.Apply(model.Op{Kind: model.OpAppend, Entries: es})
 				fmt.Printf("ACK append %d %d %d\n", es[0].Index, es[len(es)-1].Index, es[0].ID)
 			}
+		case "bulk":
+			// op.K batches of op.N tiny entries each
+			for b := 0; b < op.K; b++ {
+				idx := st.Last + 1
+				if st.Empty() {
+					idx = p.First
+				}
+				var es []*model.Entry
+				var logs []*raft.Log
+				for j := 0; j < op.N; j++ {
+					e := &model.Entry{ID: nextID, Index: idx + uint64(j), Size: op.Sizes[0]}
+					nextID++
+					es = append(es, e)
+					logs = append(logs, e.Log())
+				}
+				marker("op=%d kind=StoreLogs begin", i)
+				err := w.StoreLogs(logs)
+				marker("op=%d kind=StoreLogs ack err=%v", i, err != nil)
+				if err == nil {
+					st.Apply(model.Op{Kind: model.OpAppend, Entries: es})
+					fmt.Printf("ACK append %d %d %d\n", es[0].Index, es[len(es)-1].Index, es[0].ID)
+				}
+			}
 		case "delhead", "deltail", "delall":
 			if st.Empty() {
 				continue
@@ -634,6 +657,16 @@ func runC07(prop string, seed uint64, cfg Config, plan Plan, tp *tape.Tape) *Run
 	}
 	defer os.RemoveAll(dir)
 	p := genC07Plan(tp, cfg)
+	if mode == "trace" && tp.Choose(12) == 0 {
+		// production-like geometry: one multi-MiB segment filled with hundreds of
+		// thousands of tiny entries, so that the batch that seals it carries an
+		// index frame of more than a MiB (every small-segment run has index frames
+		// of a few bytes), followed by the ordinary operations on the next segment
+		p.SegSize = 12 << 20
+		bulk := c07op{Kind: "bulk", N: 6000 + tp.Choose(3000), K: 44 + tp.Choose(8), Sizes: []int{[]int{0, 0, 8}[tp.Choose(3)]}}
+		p.Ops = append([]c07op{bulk}, p.Ops...)
+		r.Stats.Probes.Add("trace_bulk_runs", 1)
+	}
 	exe, _ := os.Executable()
 	if mode == "kill" {
 		p.KillAt = 1 + tp.Choose(60)
